@@ -1782,17 +1782,19 @@ class RTCSctpTransport(AsyncIOEventEmitter):
             channel_type |= 2
             reliability = channel.maxPacketLifeTime
 
+        label = channel.label.encode("utf8")
+        protocol = channel.protocol.encode("utf8")
         data = pack(
             "!BBHLHH",
             DATA_CHANNEL_OPEN,
             channel_type,
             priority,
             reliability,
-            len(channel.label),
-            len(channel.protocol),
+            len(label),
+            len(protocol),
         )
-        data += channel.label.encode("utf8")
-        data += channel.protocol.encode("utf8")
+        data += label
+        data += protocol
         self._data_channel_queue.append((channel, WEBRTC_DCEP, data))
         asyncio.ensure_future(self._data_channel_flush())
 
